@@ -102,6 +102,17 @@ func MakeDefaultRtpHeader() RtpHeader {
 	}
 }
 
+// rtpTimestamp2Ms 将rtp时间戳转换为毫秒
+//
+// 注意，不能用 timestamp/(clockRate/1000) 的方式计算：clockRate不是1000的整数倍时（比如44100）会产生累积误差，
+// clockRate小于1000时（比如对端sdp中的值有问题）会除零
+func rtpTimestamp2Ms(timestamp uint32, clockRate int) int64 {
+	if clockRate <= 0 {
+		return 0
+	}
+	return int64(uint64(timestamp) * 1000 / uint64(clockRate))
+}
+
 func MakeRtpPacket(h RtpHeader, payload []byte) (pkt RtpPacket) {
 	pkt.Header = h
 	pkt.Raw = make([]byte, RtpFixedHeaderLength+len(payload))
